@@ -132,6 +132,16 @@ RdbOk == LET rp == RangePoints IN \A c \in Clients : RdbLocIn(rp, c) = LpmLoc(c)
 CdbOk == \A c \in Clients : CdbLoc(c) = LpmLoc(c)
 CdbSepOk == \A c \in Clients : CdbSepLoc(c) = LpmLoc(c)
 
+\* ------------------------------------------------------------------ C10: the scope reported for an ECS client
+\* (db.EcsLocation: matched length, minus the IPv4 offset for family 1; uint8 arithmetic - a negative value wraps)
+Scope(c, res) == IF res.loc = 0 THEN -1 ELSE IF c.fam = 4 THEN res.len - OFF ELSE res.len
+ScopeTruthful(c, res) ==
+  res.loc # 0 => /\ Scope(c, res) >= 0
+                 /\ Scope(c, res) <= (IF c.fam = 4 THEN B - OFF ELSE B)
+                 /\ Scope(c, res) = Scope(c, LpmLoc(c))
+ScopeOk == LET rp == RangePoints IN
+           \A c \in Clients : ScopeTruthful(c, RdbLocIn(rp, c)) /\ ScopeTruthful(c, CdbLoc(c)) /\ ScopeTruthful(c, CdbSepLoc(c))
+
 \* ------------------------------------------------------------------ generator
 Emit == EmitJson => PrintT(ToJson(nets))
 =============================================================================
